@@ -25,7 +25,9 @@ class ExplodeColorLayerGlyphsFilter(BaseFilter):
     def _getLayer(self, font, layerName):
         layer = self.context.layerGlyphSets.get(layerName)
         if layer is None:
-            layer = _GlyphSet.from_layer(font, layerName)
+            # work on copies: the layer glyphs get renamed component bases and lose
+            # their codepoints below, which must not leak into the source font
+            layer = _GlyphSet.from_layer(font, layerName, copy=True)
             self.context.layerGlyphSets[layerName] = layer
         return layer
 
